@@ -167,7 +167,7 @@ def reference(spec):
             s += " ON UPDATE " + getattr(ns.ReferenceOption, f["on_update"]).value
         parts.append(s)
     if spec["cls"] == "vertica":
-        head = "CREATE %sTABLE %s" % ("TEMPORARY " if spec["temporary"] else "", tname)
+        head = "CREATE %sTABLE %s%s" % ("TEMPORARY " if spec["temporary"] else "", "IF NOT EXISTS " if spec["if_not_exists"] else "", tname)
     else:
         head = "CREATE %sTABLE %s%s" % ("TEMPORARY " if spec["temporary"] else "UNLOGGED " if spec["unlogged"] else "",
                                         "IF NOT EXISTS " if spec["if_not_exists"] else "", tname)
@@ -236,6 +236,13 @@ def examine(case):
         res.tags = ["cls=" + spec["cls"], "ncol=%d" % len(spec["columns"]), "ncons=%d" % ncons]
         if text != ref:
             F("layout", "builder renders %s, the specification is %s" % (text, ref))
+        # every option flag that was given is rendered (the reference above follows the code where a flag has no rendering)
+        headtext = text.split(" TABLE ")[0]
+        for flag, word in (("temporary", "TEMPORARY"), ("unlogged", "UNLOGGED")):
+            if spec[flag] and word not in headtext:
+                why = "vertica" if spec["cls"] == "vertica" else ("with-temporary" if spec["temporary"] else "alone")
+                res.findings.append({"sig": {"kind": "flag-dropped", "flag": flag, "case": why},
+                                     "what": "%s() was called but the statement has no %s: %s | %s" % (flag, word, text, src)})
         # siblings derived from one template do not see each other's constraints
         if rng.random() < 0.3:
             tmpl = ns.ev(src)
